@@ -97,6 +97,71 @@ def hashData (bytes : Bytes) : UInt64 :=
   hashDataWith CelloGen.Hash.m CelloGen.Hash.r CelloGen.Hash.seed CelloGen.Hash.blockSteps CelloGen.Hash.tail
     CelloGen.Hash.finalSteps bytes
 
+/-! ### hash_data as a program over addressable memory
+
+  The same function once more, this time with everything the C text says about WHERE the bytes are: the cursor `d` is an address,
+  `end = d + (size & ~endMask)`, the block loop runs `while (d != end)` (no counter: a cursor that steps over `end` never stops),
+  each round loads `loadWidth` bytes at `d` and moves `d` on by `loadAdvance`, the tail switch reads `d[idx]` relative to the
+  cursor the loop left behind and widens the byte as the declared element type of `d` says (`dataByteSigned`). All five are
+  read from the source by the translator. `hashDataMem mem p n` is proved equal to `hashData` of the `n` bytes at `p`
+  (Lemmas/HashMem.lean), so the result is a function of the byte string alone — not of `p`, its alignment or the neighbours. -/
+
+abbrev Mem := Nat → UInt8
+
+/-- the `n` bytes at address `p` -/
+def loadBytes (mem : Mem) : Nat → Nat → Bytes
+  | _, 0 => []
+  | p, n + 1 => mem p :: loadBytes mem (p + 1) n
+
+/-- `(uint64_t)(d[i])` for `d` a pointer to unsigned / signed bytes -/
+def widenByte (signed : Bool) (b : UInt8) : UInt64 :=
+  if signed && decide (b ≥ 0x80) then b.toUInt64 ||| 0xffffffffffffff00 else b.toUInt64
+
+def runTailStmtMem (m : UInt64) (signed : Bool) (mem : Mem) (d : Nat) (h : UInt64) : TailStmt → UInt64
+  | .xorByte idx shift => h ^^^ (widenByte signed (mem (d + idx)) <<< (UInt64.ofNat shift))
+  | .mulM => h * m
+  | .brk => h
+
+/-- the statements `switch (n)` executes: from the label equal to `n` to the first `break` -/
+def tailStmtsAt (cases : List (Nat × List TailStmt)) (n : Nat) : List TailStmt :=
+  ((cases.dropWhile (fun c => c.1 != n)).flatMap (·.2)).takeWhile (fun s => !isBrk s)
+
+/-- `while (d != end) { k = load w bytes at d; d += adv; h = f h k }`; `none` = out of fuel (the cursor stepped over `end`) -/
+def memBlockLoop (f : UInt64 → UInt64 → UInt64) (mem : Mem) (w adv e : Nat) : Nat → Nat → UInt64 → Option (Nat × UInt64)
+  | 0, _, _ => none
+  | fuel + 1, d, h =>
+    if d = e then some (d, h) else memBlockLoop f mem w adv e fuel (d + adv) (f h (le64 (loadBytes mem d w)))
+
+structure HdFrame where
+  signed : Bool
+  endMask : Nat
+  loadWidth : Nat
+  advance : Nat
+  switchMask : Nat
+deriving DecidableEq, Repr
+
+def hashDataMemWith (F : HdFrame) (m r seed : UInt64) (block : List Step) (tail : List (Nat × List TailStmt)) (fin : List Step)
+    (mem : Mem) (p size : Nat) : Option UInt64 :=
+  let e := p + (size - (size &&& F.endMask))               -- size & ~mask
+  let h0 := seed ^^^ (UInt64.ofNat size * m)
+  match memBlockLoop (fun h k => runSteps m r block h k) mem F.loadWidth F.advance e (size + 1) p h0 with
+  | none => none
+  | some (d, h1) =>
+    some (runSteps m r fin ((tailStmtsAt tail (size &&& F.switchMask)).foldl (runTailStmtMem m F.signed mem d) h1) 0)
+
+/-- the frame of the current source -/
+def srcFrame : HdFrame :=
+  ⟨CelloGen.Hash.dataByteSigned, CelloGen.Hash.endMask, CelloGen.Hash.loadWidth, CelloGen.Hash.loadAdvance, CelloGen.Hash.switchMask⟩
+
+/-- `hash_data(p, size)` of the current source on the memory `mem` -/
+def hashDataMem (mem : Mem) (p size : Nat) : Option UInt64 :=
+  hashDataMemWith srcFrame CelloGen.Hash.m CelloGen.Hash.r CelloGen.Hash.seed CelloGen.Hash.blockSteps CelloGen.Hash.tail
+    CelloGen.Hash.finalSteps mem p size
+
+/-- a memory that holds `bs` at address `p` and `fill` everywhere else -/
+def memOf (fill : UInt8) (p : Nat) (bs : Bytes) : Mem :=
+  fun a => if p ≤ a ∧ a < p + bs.length then bs.getD (a - p) fill else fill
+
 /-! ### reference: MurmurHash64A as published -/
 
 def refBlock (h k : UInt64) : UInt64 :=
@@ -449,6 +514,25 @@ def seqHash (c : Comb) (hash : α → UInt64) (xs : List α) : UInt64 :=
 /-- `h = 0; for each entry: h = h ⊕ hash(key) ⊕ hash(val)` -/
 def mapHash (c : Comb) (hk : α → UInt64) (hv : β → UInt64) (es : List (α × β)) : UInt64 :=
   es.foldl (fun h e => combine c (combine c h (hk e.1)) (hv e.2)) 0
+
+/-! ### the container hashes as the programs the translator reads from `X_Hash` (CelloGen.Hash.FoldProg) -/
+
+open CelloGen.Hash (HTerm HExpr FoldProg) in
+/-- value of the right-hand side of the loop's assignment to `h` -/
+def evalH (env : HTerm → UInt64) : HExpr → UInt64
+  | .t x => env x
+  | .xor a b => evalH env a ^^^ evalH env b
+  | .add a b => evalH env a + evalH env b
+
+open CelloGen.Hash (HTerm HExpr FoldProg) in
+/-- `Array_Hash` / `List_Hash` / `Tuple_Hash` as extracted: `h = init; for (i = first; i < n; i++) h = body;` -/
+def seqHashSrc (p : FoldProg) (hash : α → UInt64) (xs : List α) : UInt64 :=
+  (xs.drop p.first).foldl (fun h x => evalH (fun | .acc => h | .elem => hash x | .key => 0 | .val => 0) p.body) p.init
+
+open CelloGen.Hash (HTerm HExpr FoldProg) in
+/-- `Table_Hash` / `Tree_Hash` as extracted: `h = init; for each entry in iteration order: h = body;` -/
+def mapHashSrc (p : FoldProg) (hk : α → UInt64) (hv : β → UInt64) (es : List (α × β)) : UInt64 :=
+  (es.drop p.first).foldl (fun h e => evalH (fun | .acc => h | .key => hk e.1 | .val => hv e.2 | .elem => 0) p.body) p.init
 
 /-- `Array_Cmp` / `List_Cmp` / `Tuple_Cmp`: parallel iteration, first difference decides, the shorter is smaller -/
 def seqCmp (cmp : α → β → Option Int) : List α → List β → Option Int
@@ -929,6 +1013,15 @@ def valHash (addr : Nat → Bytes) (st : Store) : Val → UInt64
   | .tuple ids => seqHash CelloGen.Hash.tupleComb (scalarHash addr) ((ids.mapM st.scalar).getD [])
   | .table _ _ t => mapHash CelloGen.Hash.tableComb (scalarHash addr) (scalarHash addr) t.entries
   | .tree _ _ t => mapHash CelloGen.Hash.treeComb (scalarHash addr) (scalarHash addr) t.toList
+
+/-- `hash(obj)` with the five container hashes run as the programs extracted from `Array_Hash` … `Tree_Hash` -/
+def valHashSrc (addr : Nat → Bytes) (st : Store) : Val → UInt64
+  | .sc s => scalarHash addr s
+  | .seq .array _ items => seqHashSrc CelloGen.Hash.arrayHashProg (scalarHash addr) items
+  | .seq .list _ items => seqHashSrc CelloGen.Hash.listHashProg (scalarHash addr) items
+  | .tuple ids => seqHashSrc CelloGen.Hash.tupleHashProg (scalarHash addr) ((ids.mapM st.scalar).getD [])
+  | .table _ _ t => mapHashSrc CelloGen.Hash.tableHashProg (scalarHash addr) (scalarHash addr) t.entries
+  | .tree _ _ t => mapHashSrc CelloGen.Hash.treeHashProg (scalarHash addr) (scalarHash addr) t.toList
 
 /-- `cmp(a, b)` (sign); `none` = TypeError / not exercised.
     A sequence on the left (`Array_Cmp` / `List_Cmp` / `Tuple_Cmp`) walks the right operand with `iter_init` / `iter_next`: a Table
